@@ -20,6 +20,12 @@ Inductive obs :=
 | OClose (s k : nat)              (* Close() on that conn (any number of times) *)
 | ODie (s : nat)                  (* client session s was closed: the server session dies *)
 | OLClose                         (* listener.Close() ran to completion *)
+| OLCloseCall                     (* listener.Close() was called ... *)
+| ORawClose (cc : bool) (bl ac : nat) (* ... it is now inside the raw listener's Close (hook): is closeCh closed?
+                                     len(l.backlog); number of conns the adapter has Closed itself so far *)
+| OBacklogLen (n : nat)           (* inside the hook: len(l.backlog) at quiescence *)
+| OHookEnd                        (* the hook returns: the Close call goes on *)
+| OLCloseRet                      (* ... and has returned *)
 | OFinal (closed : list bool).    (* at quiescence: IsClosed() of every server session *)
 
 Definition bz (b : bool) : Z := if b then 1 else 0.
@@ -74,32 +80,36 @@ Fixpoint add_new (xs : list state) (acc : list state) (ks : list hkey) (fresh : 
 Definition flush_closing (st : state) : state :=
   fold_left (fun a w => if enabled a (CloseTaken w) then step a (CloseTaken w) else a) (closing st) st.
 
-Definition internal_events (st : state) : list event :=
+(* fz ("frozen"): the harness holds the listener.Close call inside the raw listener's Close (hook), so
+   the Close threads cannot step *)
+Definition internal_events (fz : bool) (st : state) : list event :=
   flat_map (fun s => [Wrap s; Enqueue s; Lose s; PostCheck s; GDrain s; AcceptErr s]) (seq 0 (nsess st))
-  ++ map LStep (seq 0 (ncl st)).
-Definition succs (st : state) : list state :=
-  map (fun e => flush_closing (step st e)) (filter (enabled st) (internal_events st)).
-Definition settled (st : state) : bool :=
-  match filter (enabled st) (internal_events st) with [] => true | _ => false end.
+  ++ (if fz then [] else map LStep (seq 0 (ncl st))).
+Definition succs (fz : bool) (st : state) : list state :=
+  map (fun e => flush_closing (step st e)) (filter (enabled st) (internal_events fz st)).
+Definition settled_fz (fz : bool) (st : state) : bool :=
+  match filter (enabled st) (internal_events fz st) with [] => true | _ => false end.
+Definition settled := settled_fz false.
 
 (* budget: the lag-tolerant pass gives up growing a state set beyond this size (the history was already
    rejected by the quiet pass; a set this large means the verdict stays "not accepted") *)
 Definition budget : nat := 600.
 
-Fixpoint closure (fuel : nat) (frontier acc : list state) (ks : list hkey) : list state :=
+Fixpoint closure (fz : bool) (fuel : nat) (frontier acc : list state) (ks : list hkey) : list state :=
   match fuel with
   | O => acc
   | S f =>
     match frontier with
     | [] => acc
     | _ => if (budget <? length acc)%nat then acc else
-           let '(acc', ks', fresh) := add_new (flat_map succs frontier) acc ks [] in
-           closure f fresh acc' ks'
+           let '(acc', ks', fresh) := add_new (flat_map (succs fz) frontier) acc ks [] in
+           closure fz f fresh acc' ks'
     end
   end.
 
-Definition close_set (sts : list state) : list state :=
-  let '(acc, ks, fresh) := add_new sts [] [] [] in closure 64 fresh acc ks.
+Definition close_set_fz (fz : bool) (sts : list state) : list state :=
+  let '(acc, ks, fresh) := add_new sts [] [] [] in closure fz 64 fresh acc ks.
+Definition close_set := close_set_fz false.
 
 Fixpoint find_w (st : state) (s k : nat) (ws : list nat) : option nat :=
   match ws with
@@ -122,6 +132,14 @@ Definition apply_obs (st : state) (o : obs) : list state :=
   | OClose s k => match find_w st s k (delivered st) with Some w => fire st (WClose w) | None => [] end
   | ODie s => fire st (SessionDie s)
   | OLClose => fire st LCall   (* its steps are internal; the call has RETURNED: see obs_step *)
+  | OLCloseCall => fire st LCall
+  | ORawClose cc bl ac =>
+    (* the call that won the CAS is between its CAS and close(closeCh): that is where the raw listener is closed *)
+    if existsb (fun k => match cl_of st k with CSig => true | _ => false end) (seq 0 (ncl st))
+       && Bool.eqb (closeCh st) cc && Nat.eqb (length (backlog st)) bl && Nat.eqb (length (aclosed st)) ac then [st] else []
+  | OBacklogLen n => if Nat.eqb (length (backlog st)) n then [st] else []
+  | OHookEnd => [st]
+  | OLCloseRet => [st]
   | OFinal flags =>
     if settled st && zlist_eqb (map bz flags) (map (fun s => bz (sclosed (sess_of st s))) (seq 0 (nsess st)))
     then [st] else []
@@ -135,29 +153,39 @@ Definition closers_done (st : state) : bool :=
    for quiescence after every operation): a fast first pass.  A history rejected by the quiet pass is
    re-run with quiet = false, i.e. tolerating an implementation that lags behind at every observation,
    and only that verdict counts. *)
-Definition obs_step (quiet : bool) (sts : list state) (o : obs) : list state :=
+Definition obs_step (quiet fz : bool) (sts : list state) (o : obs) : list state :=
   let r := match o with
-           | OLClose => filter closers_done (close_set (flat_map (fun st => apply_obs st o) sts))
-           | _ => close_set (flat_map (fun st => apply_obs st o) sts)
+           | OLClose | OLCloseRet => filter closers_done (close_set_fz fz (flat_map (fun st => apply_obs st o) sts))
+           | _ => close_set_fz fz (flat_map (fun st => apply_obs st o) sts)
            end in
-  if quiet then filter settled r else r.
+  match o with
+  | OLCloseCall => r     (* the call may be held inside the hook: not yet at rest *)
+  | _ => if quiet then filter (settled_fz fz) r else r
+  end.
+
+Definition fz_after (fz : bool) (o : obs) : bool :=
+  match o with ORawClose _ _ _ => true | OHookEnd => false | _ => fz end.
+(* an observation made inside the hook is matched against the states BEFORE any further internal step of
+   the held call; the freeze takes effect for ORawClose itself *)
+Definition fz_for (fz : bool) (o : obs) : bool :=
+  match o with ORawClose _ _ _ => true | OHookEnd => false | _ => fz end.
 
 (* index of the first observation that no state of the set accepts; the first `nq` observations are
    processed quietly, the rest tolerating lag *)
-Fixpoint run_obs_q (nq : nat) (sts : list state) (os : list obs) (n : nat) : option nat :=
+Fixpoint run_obs_q (nq : nat) (fz : bool) (sts : list state) (os : list obs) (n : nat) : option nat :=
   match os with
   | [] => None
-  | o :: r => match obs_step (0 <? nq)%nat sts o with
+  | o :: r => match obs_step (0 <? nq)%nat (fz_for fz o) sts o with
               | [] => Some n
-              | sts' => run_obs_q (pred nq) sts' r (S n)
+              | sts' => run_obs_q (pred nq) (fz_after fz o) sts' r (S n)
               end
   end.
 (* quiet pass; if it rejects at observation k, a second pass tolerates lag from observation k - 4 on
    (a lag can only stem from the last few operations) and only that verdict counts *)
 Definition run_obs (sts : list state) (os : list obs) (n : nat) : option nat :=
-  match run_obs_q (S (length os)) sts os n with
+  match run_obs_q (S (length os)) false sts os n with
   | None => None
-  | Some k => run_obs_q (k - n - 4) sts os n
+  | Some k => run_obs_q (k - n - 4) false sts os n
   end.
 
 (* ---- Read/Write traces ---- *)
@@ -227,8 +255,21 @@ Definition selftest_neg : bool :=
   | _ => false
   end.
 
+(* the order of listener.Close's steps is tied to the code through the hook: at the raw Close the backlog
+   has NOT been drained yet and closeCh is still open; a stream queued inside the hook is drained later *)
+Definition hook_history (bl_at_hook ac_at_hook : nat) (final : bool) : ncase :=
+  {| n_cap := 4;
+     n_obs := [OConnect; OOpen 0; OAccept 0 0; OOpen 0; OLCloseCall; ORawClose false bl_at_hook ac_at_hook; OOpen 0; OBacklogLen (S bl_at_hook);
+               OHookEnd; OLCloseRet; OClose 0 0; OFinal [final]];
+     n_pipes := [] |}.
+Definition selftest_hook : bool :=
+  match mismatches [hook_history 1 0 true], mismatches [hook_history 0 1 true], mismatches [hook_history 1 0 false] with
+  | [], [(_, 1, 5%nat, _)], [(_, 1, 11%nat, _)] => true
+  | _, _, _ => false
+  end.
+
 Definition selftest : list (nat * Z * nat * nat) :=
-  (if selftest_neg then [] else [(99%nat, 9, O, O)]) ++
+  (if selftest_neg then [] else [(99%nat, 9, O, O)]) ++ (if selftest_hook then [] else [(98%nat, 9, O, O)]) ++
   mismatches [ {| n_cap := 1;
                   n_obs := [OConnect; OOpen 0; OLClose; OAcceptErr; OFinal [true]];
                   n_pipes := [[IOW [1; 2; 3]; IOR 2 0 [1; 2]; IOR 0 0 []; IOR 5 0 [3]; IOR 4 1 []; IOPeerClose; IOR 1 2 []]] |} ].
